@@ -1543,6 +1543,8 @@ MUTANTS += [
       'C12 C02'),
     M('configured-minimum-not-handed-on', S, "                        n_points_min=self.n_points_min,\n", "", 'C13'),
     M('periodic-set-not-handed-on', S, "                        periodic=self.periodic,\n", "", 'C16'),
+    M('n-eff-zero-when-some-shell-is-empty', S, "        if np.all(self.shell_n_eff == 0):\n            return 0\n",
+      "        if np.any(self.shell_n_eff == 0):\n            return 0\n", 'C02'),
     M('prune-guard-all-empty', S, "                    if np.any(self.shell_n == 0):\n",
       "                    if np.all(self.shell_n == 0):\n", 'C12'),
 ]
@@ -1567,6 +1569,9 @@ BENIGN += [
          old="                    self.shell_n_sample_exp = np.copy(self.shell_n_sample)\n",
          new="                    self.shell_n_sample_exp = self.shell_n_sample.copy()\n",
          props=ALL.split()),
+    dict(id='n-eff-zero-guard-not-any-positive', file=S,
+         old="        if np.all(self.shell_n_eff == 0):\n            return 0\n",
+         new="        if not np.any(self.shell_n_eff > 0):\n            return 0\n", props=ALL.split()),
     dict(id='prune-guard-any-method', file=S,
          old="                    if np.any(self.shell_n == 0):\n",
          new="                    if (self.shell_n == 0).any():\n", props=ALL.split()),
